@@ -68,6 +68,8 @@ type Gen struct {
 	Val       int64
 	Hot       []int
 	nObsEpoch int
+	fill      int
+	drain     bool
 }
 
 func NewGen(r *Rng, m *Model, p *Profile) *Gen {
@@ -363,6 +365,35 @@ func (g *Gen) batchFilter(op *Op, valid func(st *MEnt) bool) bool {
 
 // Next generates the next op.
 func (g *Gen) Next() *Op {
+	// lock-discipline phases: open up to 64 queries, then close them in a random permutation
+	if g.P.QuerySlots >= 64 {
+		if g.fill == 0 && !g.drain && g.M.Locks == 0 && g.R.Chance(4) {
+			g.fill = []int{2, 5, 17, 33, 63, 64, 64}[g.R.Intn(7)]
+		}
+		if g.fill > 0 {
+			if g.M.Locks >= g.fill {
+				g.fill = 0
+				g.drain = true
+			} else if g.R.Chance(85) {
+				if op := g.make(KOpenQuery); op != nil {
+					return op
+				}
+			}
+		}
+		if g.drain {
+			if g.M.Locks == 0 {
+				g.drain = false
+			} else if g.R.Chance(70) {
+				k := KCloseQuery
+				if g.R.Chance(30) {
+					k = KStepQuery
+				}
+				if op := g.make(k); op != nil {
+					return op
+				}
+			}
+		}
+	}
 	for tries := 0; tries < 50; tries++ {
 		k := g.pickKind()
 		if op := g.make(k); op != nil {
